@@ -403,10 +403,41 @@ def observe_module(name, keys, spec):
                 sre[attr] = r
     obs["eqs"] = eqs
     obs["srepr"] = sre
+    obs["uses"] = earlier_names_used(mod, before)
     obs["fallback_keys"] = stats.get("fallback_keys", 0)
     if spec.get("calc"):
         obs["calc"] = run_calcs(mod, spec.get("argseed", 0), spec.get("calc_budget_s", 20))
     return obs
+
+
+GEN_FULL = re.compile(r"^(SYM|FUN|QTY|SYS|VEC|C)(\d+)$")
+
+
+def earlier_names_used(mod, before):
+    """numbers of the generated names minted BEFORE this module's import (registry symbols, constants, other modules' symbols)
+    that occur in the module's namespace: the names the module's own new names can be compared with"""
+    import sympy
+    from sympy.core.function import AppliedUndef
+    found = {}
+
+    def note(nm):
+        m = GEN_FULL.match(str(nm))
+        if m and int(m.group(2)) <= before.get(m.group(1), 0):
+            found.setdefault(m.group(1), set()).add(int(m.group(2)))
+    for val in list(vars(mod).values()):
+        try:
+            if isinstance(val, sympy.Basic):
+                for a in val.atoms(sympy.Symbol, sympy.physics.units.Quantity):
+                    note(getattr(a, "name", ""))
+                for a in val.atoms(AppliedUndef):
+                    note(getattr(a.func, "name", ""))
+                for a in val.atoms(sympy.Indexed):
+                    note(getattr(a.base, "name", ""))
+            elif isinstance(val, type) and hasattr(val, "name"):
+                note(val.name)
+        except Exception:  # pylint: disable=broad-except
+            continue
+    return {p: sorted(v) for p, v in found.items()}
 
 
 def _delta(a, b):
